@@ -463,7 +463,7 @@ pub fn judge(sim: &Sim) -> Verdict {
 
 fn random_topo(rng: &Prng, max_nodes: usize, special: bool) -> Topo {
     let n = 2 + rng.below(max_nodes as u64 - 1) as usize;
-    let shape = rng.below(6);
+    let shape = rng.below(7);
     let mut ports: Vec<Vec<(usize, bool)>> = vec![vec![]; n];
     let mut nsegs = 0;
     let mut link = |ports: &mut Vec<Vec<(usize, bool)>>, nsegs: &mut usize, members: &[usize]| {
@@ -508,6 +508,15 @@ fn random_topo(rng: &Prng, max_nodes: usize, special: bool) -> Topo {
             if n > k {
                 link(&mut ports, &mut nsegs, &[k - 1, k]);
             }
+        }
+        6 if n >= 3 => {
+            // a boundary clock (node 0) with two ports on a shared segment and an uplink to the last node:
+            // when the last node ranks best, node 0 masters the shared segment through two ports of its own
+            let k = n - 1;
+            let mut m: Vec<usize> = (0..k).collect();
+            m.push(0);
+            link(&mut ports, &mut nsegs, &m);
+            link(&mut ports, &mut nsegs, &[0, k]);
         }
         _ => {
             // random connected: a spanning tree plus extra links
@@ -556,7 +565,16 @@ fn random_topo(rng: &Prng, max_nodes: usize, special: bool) -> Topo {
             }
             c
         })
-        .collect();
+        .collect::<Vec<NodeCfg>>();
+    let mut nodes = nodes;
+    if shape == 6 && n >= 3 && rng.below(2) == 0 {
+        // the uplink node is the grandmaster
+        nodes[n - 1].p1 = 126;
+        nodes[n - 1].slave_only = false;
+        if nodes[n - 1].class == 255 {
+            nodes[n - 1].class = 248;
+        }
+    }
     Topo { nodes, nsegs }
 }
 
